@@ -5,23 +5,33 @@ script-code dispatch = consensus rule per script type). Tie + property predicate
 are signed by embit (in memory and through PSBTView); every signature added is verified by the independent Lean
 verifier against the Lean CONSENSUS digest (`sigcheck.*`), the set of (input, key) signed is compared with the set the
 property prescribes (computed here from how the wallet was built), as are flag bytes, the returned count and the
-requirement that nothing else changes."""
+requirement that nothing else changes.
+
+C02X (Props/C02X.lean): the whole of `PSBT.sign_with` is modelled (Model/SignWith.lean) and proved to add only valid,
+authorised signatures, to change nothing else, to count them and to sign every key it controls. The model is tied to
+embit here: `sign.run` runs it over the concrete secp256k1 / SHA-256 / RIPEMD-160 / HMAC-SHA512 of the driver, so the
+WHOLE resulting PSBT (signature bytes included) and the returned count are compared with embit's on every generated
+case and on adversarial variants (existing signatures, re-signing, wrong-parity / duplicated / foreign derivation
+entries, uncompressed keys, descriptors holding one key twice). `sign.struct` is the same comparison with signature
+values blanked (count, set of slots, frame: fully determined by the theorems); `sign.trace` compares the model's trace
+with the slots embit changed (count = number of distinct slots of the trace, changed slots are trace slots)."""
 import io
 import json
-from collections import Counter
+from collections import Counter, OrderedDict
 
 from core import Check, hx, run_driver
 import gen
 import gen_wallet as gw
 import gen_psbt
 
-from embit import ec
+from embit import ec, bip32
 from embit.descriptor import Descriptor
+from embit.descriptor.arguments import Key, KeyOrigin
 from embit.psbt import PSBT
 from embit.psbtview import PSBTView
 
 PROP = "C02"
-MODS = ["EmbitModel.Props.C02"]
+MODS = ["EmbitModel.Props.C02", "EmbitModel.Props.C02X"]
 H = gw.H
 AUTH = [None, 0, 1, 2, 3, 0x81, 0x82, 0x83]
 
@@ -67,6 +77,179 @@ def make_signer(rng, g):
     return "desckey", d.keys[0], pred
 
 
+# ---------------------------------------------------------------- C02X: the model of sign_with
+
+def on(x):
+    return "None" if x is None else str(x)
+
+
+def ob(x):
+    return "None" if x is None else hx(x)
+
+
+def skv(pairs):
+    return ",".join(hx(k) + ":" + hx(v) for k, v in pairs) if pairs else "-"
+
+
+def hd_tok(k):
+    return "prv %s 1 %s %s %d %s %d" % (hx(k.key.secret), hx(k.chain_code), hx(k.version), k.depth, hx(k.fingerprint), k.child_number)
+
+
+def single_tok(k):
+    """one key as the driver reads it; None when the model does not cover it (public HD key used directly)"""
+    if isinstance(k, ec.PrivateKey):
+        return "wif %s %d" % (hx(k.secret), 1 if k.compressed else 0)
+    if isinstance(k, bip32.HDKey):
+        return ("hd " + hd_tok(k)) if k.is_private else None
+    if not k.is_private:
+        return "keypub"
+    if k.is_extended:
+        o = "None" if k.origin is None else "%s %d%s" % (hx(k.origin.fingerprint), len(k.origin.derivation),
+                                                          "".join(" %d" % x for x in k.origin.derivation))
+        return "keyhd %s %s" % (hd_tok(k.key), o)
+    return "wif %s %d" % (hx(k.key.secret), 1 if k.key.compressed else 0)
+
+
+def signer_tok(s):
+    if hasattr(s, "keys"):
+        ks = [single_tok(k) for k in s.keys]
+        return None if None in ks else "desc %d %s" % (len(ks), " ".join(ks))
+    return single_tok(s)
+
+
+def dump_sorted(p):
+    """harness/props/c04.py `dump`, with both signature maps sorted by key: Python adds new entries in set order"""
+    t = [on(p.version), on(p.tx_version), on(p.locktime),
+         skv([(x.serialize(), d.serialize()) for x, d in p.xpubs.items()]), skv(list(p.unknown.items()))]
+    for i in p.inputs:
+        i.partial_sigs = OrderedDict(sorted(i.partial_sigs.items(), key=lambda kv: kv[0].sec()))
+        i.taproot_sigs = OrderedDict(sorted(i.taproot_sigs.items(), key=lambda kv: kv[0][0].xonly() + kv[0][1]))
+        u = i._utxo
+        t += ["I", ob(i.txid), on(i.vout), on(i.sequence),
+              "None" if u is None else "%d/%s" % (u.value, hx(u.script_pubkey.data)), ob(i._txhash),
+              skv(scope_pairs_of(i, p.version))]
+    for o in p.outputs:
+        t += ["O", on(o.value), "None" if o.script_pubkey is None else hx(o.script_pubkey.data),
+              skv(scope_pairs_of(o, p.version))]
+    return " ".join(t)
+
+
+def strip_ntrace(out):
+    if not out.startswith("ok "):
+        return out
+    t = out.split(" ")
+    return " ".join(t[:2] + t[3:])
+
+
+def blank_sigs(ans):
+    """replace signature VALUES by their shape (DER: flag byte; Schnorr: length; witness: item length)"""
+    if not ans.startswith("ok "):
+        return ans
+    t = ans.split(" ")
+    out = []
+    k = 0
+    while k < len(t):
+        if t[k] == "I":
+            kvs = t[k + 6]
+            if kvs != "-":
+                ps = []
+                for kvp in kvs.split(","):
+                    key, val = kvp.split(":")
+                    if key[:2] == "02":
+                        val = "sig+" + val[-2:]
+                    elif key[:2] == "14" or key == "08":
+                        val = "len%d" % (len(val) // 2)
+                    ps.append(key + ":" + val)
+                kvs = ",".join(ps)
+            out += t[k:k + 6] + [kvs]
+            k += 7
+        else:
+            out.append(t[k])
+            k += 1
+    return " ".join(out)
+
+
+def slots_of(before, after):
+    """(input, slot) pairs whose content differs, as the driver prints trace slots"""
+    res = []
+    for i, (x, y) in enumerate(zip(before, after)):
+        bx = dict(x)
+        for k, v in y:
+            if bx.get(k) != v:
+                if k[:1] == b"\x02":
+                    res.append("%d partial %s" % (i, hx(k[1:])))
+                elif k[:1] == b"\x14":
+                    res.append("%d tapscript %s" % (i, hx(k[1:])))
+                elif k == b"\x08":
+                    res.append("%d tapkey -" % i)
+                else:
+                    res.append("%d other %s" % (i, hx(k)))
+    return sorted(res)
+
+
+def canon_trace(changed):
+    """`ok n {input slotkind key value}*` -> `ok n` when n is the number of distinct slots of the trace and every slot embit
+    changed is a slot of the trace (a slot may be written with the value it already holds: not visible as a change)"""
+    def canon(out):
+        if not out.startswith("ok "):
+            return out
+        t = out.split(" ")
+        sl = set(" ".join(t[k:k + 3]) for k in range(2, len(t), 4))
+        if len(sl) != int(t[1]):
+            return "count %s but %d distinct slots: %s" % (t[1], len(sl), out[:200])
+        miss = [x for x in changed if x not in sl]
+        if miss:
+            return "changed slot not in the trace: %s" % miss[:3]
+        return "ok " + t[1]
+    return canon
+
+
+def model_compare(c, b, signer, authorised, rec0, result):
+    """result: None (embit raised) or (count, PSBT after, pairs before, pairs after)"""
+    st = signer_tok(signer)
+    if st is None:
+        c.tally("model:signer-not-covered")
+        return
+    a = "None" if authorised is None else str(authorised)
+    line = "sign.run %s %s %s" % (st, a, hx(b))
+    changed = []
+    if result is None:
+        impl = "none"
+        trace = "none"
+    else:
+        count, p, before, after = result
+        impl = "ok %d %s" % (count, dump_sorted(p))
+        changed = slots_of(before, after)
+        trace = "ok %d" % count
+    info = dict(rec0, op="sign.run")
+    c.expect(line, blank_sigs(impl), info, proven=True, op="sign.struct", canon=lambda o: blank_sigs(strip_ntrace(o)))
+    c.expect(line, impl, info, proven=False, op="sign.run", canon=strip_ntrace)
+    c.expect("sign.trace %s %s %s" % (st, a, hx(b)), trace, dict(rec0, op="sign.trace"), proven=True, op="sign.trace",
+             canon=canon_trace(changed))
+
+
+def canon_stream(ans):
+    """`ok n <stream hex>` -> `ok n <scopes, pairs sorted>`"""
+    if not ans.startswith("ok "):
+        return ans
+    t = ans.split(" ")
+    raw = bytes.fromhex(t[2]) if t[2] != "-" else b""
+    sc = gen_psbt.split_scopes(b"psbt\xff\x00" + raw)[1:] if raw else []
+    return "ok %s %s" % (t[1], " | ".join(",".join(sorted(hx(k) + ":" + hx(v) for k, v in x)) for x in sc))
+
+
+def view_compare(c, b, signer, authorised, rec0, result):
+    """result: None (embit raised) or (count, bytes written to the signature stream)"""
+    st = signer_tok(signer)
+    if st is None:
+        c.tally("model:signer-not-covered")
+        return
+    a = "None" if authorised is None else str(authorised)
+    impl = "none" if result is None else canon_stream("ok %d %s" % (result[0], hx(result[1])))
+    c.expect("sign.view %s %s %s" % (st, a, hx(b)), impl, dict(rec0, op="sign.view"), proven=False, op="sign.view",
+             canon=canon_stream)
+
+
 def scope_pairs_of(scope, version):
     s = io.BytesIO()
     scope.write_to(s, version=version)
@@ -94,7 +277,8 @@ def check_case(c, g, signer_name, signer, pred, authorised, use_view):
     rec0 = {"op": "psbt.sign", "signer": signer_name, "authorised": authorised, "view": use_view, "bytes": hx(b)[:30000],
             "inputs": [(x["kind"], x["sighash_type"]) for x in g["ins"]]}
     p = PSBT.parse(b)
-    before = [Counter(scope_pairs_of(i, p.version)) for i in p.inputs]
+    before_pairs = [scope_pairs_of(i, p.version) for i in p.inputs]
+    before = [Counter(x) for x in before_pairs]
     out_before = [scope_pairs_of(o, p.version) for o in p.outputs]
     try:
         if use_view:
@@ -102,12 +286,15 @@ def check_case(c, g, signer_name, signer, pred, authorised, use_view):
             v = PSBTView.view(s)
             sigs = io.BytesIO()
             count = v.sign_with(signer, sigs, sighash=authorised)
+            view_compare(c, b, signer, authorised, rec0, (count, sigs.getvalue()))
             sc = gen_psbt.split_scopes(b"psbt\xff" + b"\x00" + sigs.getvalue())[1:] if sigs.getvalue() else []
             added = [Counter(x) for x in sc] + [Counter() for _ in range(len(p.inputs) - len(sc))]
             # the stream carries every partial sig of the scope after signing; keep only the new ones
             added = [Counter({k: n for k, n in a.items() if k not in before[i]}) for i, a in enumerate(added)]
         else:
             count = p.sign_with(signer, sighash=authorised)
+            model_compare(c, b, signer, authorised, rec0,
+                          (count, p, before_pairs, [scope_pairs_of(i, p.version) for i in p.inputs]))
             after = [Counter(scope_pairs_of(i, p.version)) for i in p.inputs]
             for i, (x, y) in enumerate(zip(before, after)):
                 lost = x - y
@@ -119,6 +306,10 @@ def check_case(c, g, signer_name, signer, pred, authorised, use_view):
                 return
             added = [y - x for x, y in zip(before, after)]
     except Exception as e:
+        if not use_view:
+            model_compare(c, b, signer, authorised, rec0, None)
+        else:
+            view_compare(c, b, signer, authorised, rec0, None)
         # a raise is acceptable only when a digest that has to be computed does not exist:
         # BIP341 SIGHASH_SINGLE on an input without matching output
         for i, d in enumerate(g["ins"]):
@@ -222,6 +413,251 @@ def check_case(c, g, signer_name, signer, pred, authorised, use_view):
         c.expect(line, "valid", dict(rec0, input=i, key=hx(k)[:70], flag=flag, kind=d["kind"]), proven=True, op="sigcheck")
 
 
+# ---------------------------------------------------------------- C02X: adversarial variants
+
+H_ = gw.H
+
+
+def flag_of(algo, k, v):
+    """the sighash flag a stored signature carries (None = malformed)"""
+    if algo == "taproot":
+        sig = v
+        if k == b"\x08":
+            if v[:1] != b"\x01" or len(v) < 2 or v[1] != len(v) - 2:
+                return None
+            sig = v[2:]
+        return 0 if len(sig) == 64 else (sig[-1] if len(sig) == 65 and sig[-1] != 0 else None)
+    return v[-1] if v else None
+
+
+def mutate(rng, g):
+    """in-place variant of a generated PSBT description; returns its name"""
+    kind = rng.choice(["none", "presig", "presig", "parity", "duptap", "badpath", "fp", "noutxo", "pretap"])
+    ins = g["ins"]
+    d = rng.choice(ins)
+    pairs = list(d["pairs"])
+    if kind == "presig":
+        if d["algo"] != "taproot" and d["keys"]:
+            r = rng.choice(d["keys"])
+            val = gen.rbytes(rng, rng.randrange(1, 73))
+            pairs.append((b"\x02" + r[2], val))
+        else:
+            kind = "none"
+    elif kind == "pretap":
+        if d["algo"] == "taproot":
+            if rng.random() < 0.5:
+                pairs.append((b"\x08", b"\x02\x01\x07\x02\x08\x09"))
+            else:
+                leafs = [r for r in d["keys"] if r[4] is not None]
+                if leafs:
+                    r = rng.choice(leafs)
+                    pairs.append((b"\x14" + r[3] + r[4][2], gen.rbytes(rng, 64)))
+        else:
+            kind = "none"
+    elif kind == "parity":
+        idx = [n for n, (k, _) in enumerate(pairs) if k[:1] == b"\x06"]
+        if idx:
+            n = rng.choice(idx)
+            k, v = pairs[n]
+            pairs[n] = (b"\x06" + bytes([k[1] ^ 1]) + k[2:], v)
+        else:
+            kind = "none"
+    elif kind == "duptap":
+        if d["algo"] != "taproot":
+            idx = [n for n, (k, _) in enumerate(pairs) if k[:1] == b"\x06"]
+            if idx:
+                k, v = pairs[rng.choice(idx)]
+                pairs.append((b"\x16" + k[2:34], b"\x00" + v))
+            else:
+                kind = "none"
+        else:
+            idx = [n for n, (k, _) in enumerate(pairs) if k[:1] == b"\x16"]
+            k, v = pairs[rng.choice(idx)]
+            nh = v[0]
+            pairs.append((b"\x06" + bytes([rng.choice([2, 3])]) + k[1:], v[1 + 32 * nh:]))
+    elif kind == "badpath":
+        idx = [n for n, (k, v) in enumerate(pairs) if k[:1] == b"\x06" and len(v) >= 8]
+        if idx:
+            n = rng.choice(idx)
+            k, v = pairs[n]
+            pairs[n] = (k, v[:-4] + ((int.from_bytes(v[-4:], "little") + 1) % 2**31).to_bytes(4, "little"))
+        else:
+            kind = "none"
+    elif kind == "fp":
+        idx = [n for n, (k, v) in enumerate(pairs) if k[:1] == b"\x06"]
+        if idx:
+            n = rng.choice(idx)
+            k, v = pairs[n]
+            pairs[n] = (k, bytes([v[0] ^ 1]) + v[1:])
+        else:
+            kind = "none"
+    elif kind == "noutxo":
+        pairs = [(k, v) for k, v in pairs if k not in (b"\x00", b"\x01")]
+    d["pairs"] = pairs
+    return kind
+
+
+def adv_signer(rng, g):
+    """signers the wallet-derived expectation of `check_case` does not cover"""
+    kind = rng.choice(["root:A", "root:B", "uncompressed", "desc2", "descmix", "origin-mismatch", "keywif", "wif", "desckey0"])
+    w = gw.wallet("A")
+    recs = [r for i in g["ins"] for r in i["keys"] if r[0] == "A" and r[1]]
+    if kind.startswith("root:") or not recs:
+        ww = gw.wallet(kind[5:] if kind.startswith("root:") else "A")
+        return "root:" + ww.name, ww.root
+    r = rng.choice(recs)
+    acct = r[1][:3]
+    axprv = w.key(acct)
+    origin = "[%s/%s]" % (w.fp.hex(), "/".join("%dh" % (x - H_) for x in acct))
+    prv = w.key(r[1]).key
+    if kind == "uncompressed":
+        return kind, ec.PrivateKey(prv.secret, compressed=False)
+    if kind == "wif":
+        return kind, prv
+    if kind == "keywif":
+        return kind, Key(prv, origin=KeyOrigin(w.fp, list(r[1])))
+    if kind == "desc2":
+        k = origin + axprv.to_base58()
+        return kind, Descriptor.from_string("wsh(or_d(pk(%s/<0;1>/*),and_v(v:pk(%s/<2;3>/*),older(10))))" % (k, k))
+    if kind == "descmix":
+        xb = gw.wallet("B").key([48 + H_, H_, H_, 2 + H_]).to_public().to_base58()
+        return kind, Descriptor.from_string("wsh(multi(1,%s/<0;1>/*,%s%s/<0;1>/*,%s))" % (xb, origin, axprv.to_base58(), prv.wif()))
+    if kind == "origin-mismatch":
+        other = [(acct[0] ^ 1)] + acct[1:]
+        o2 = "[%s/%s]" % (w.fp.hex(), "/".join("%dh" % (x - H_) for x in other))
+        return kind, Descriptor.from_string("wpkh(%s%s/<0;1>/*)" % (o2, axprv.to_base58())).keys[0]
+    # descriptor key without origin: its own fingerprint is the account key's
+    return "desckey0", Descriptor.from_string("wpkh(%s/<0;1>/*)" % axprv.to_base58()).keys[0]
+
+
+def adversarial_case(c, rng):
+    g = gw.gen_signable(rng)
+    mkind = mutate(rng, g)
+    b = gw.psbt_bytes(g)
+    try:
+        p = PSBT.parse(b)
+    except Exception:
+        c.tally("adv:unparsable")
+        return
+    name, signer = adv_signer(rng, g)
+    authorised = rng.choice(AUTH)
+    rounds = 2 if rng.random() < 0.35 else 1       # second round: sign the result again (same or another signer)
+    for rnd in range(rounds):
+        if rnd == 1:
+            b = p.serialize()
+            p = PSBT.parse(b)
+            if rng.random() < 0.5:
+                name, signer = adv_signer(rng, g)
+        rec0 = {"op": "psbt.sign.adv", "signer": name, "authorised": authorised, "mutation": mkind, "round": rnd,
+                "bytes": hx(b)[:30000], "inputs": [(x["kind"], x["sighash_type"]) for x in g["ins"]]}
+        before = [scope_pairs_of(i, p.version) for i in p.inputs]
+        out_before = [scope_pairs_of(o, p.version) for o in p.outputs]
+        glob_before = (p.version, p.tx_version, p.locktime, dict(p.unknown), len(p.inputs))
+        c.count(("adv", name, authorised, mkind, rnd, b), nontrivial=True)
+        c.tally("adv-mutation:%s" % mkind)
+        c.tally("adv-signer:%s" % name)
+        # the stream variant on the same bytes
+        vres = None
+        try:
+            v = PSBTView.view(io.BytesIO(b))
+            sigs = io.BytesIO()
+            vres = (v.sign_with(signer, sigs, sighash=authorised), sigs.getvalue())
+        except Exception:
+            pass
+        view_compare(c, b, signer, authorised, rec0, vres)
+        try:
+            count = p.sign_with(signer, sighash=authorised)
+        except Exception as e:
+            c.tally("adv:raised")
+            model_compare(c, b, signer, authorised, rec0, None)
+            if vres is not None:
+                c.fail("PSBTView.sign_with succeeds where PSBT.sign_with raises", rec0)
+            return
+        after = [scope_pairs_of(i, p.version) for i in p.inputs]
+        model_compare(c, b, signer, authorised, rec0, (count, p, before, after))
+        # stream variant vs in-memory variant: same count; the stream holds signature pairs of the in-memory result
+        # only, and every pair the in-memory variant added or changed
+        if vres is None:
+            c.fail("PSBTView.sign_with raises where PSBT.sign_with succeeds", rec0)
+            return
+        vs = gen_psbt.split_scopes(b"psbt\xff\x00" + vres[1])[1:] if vres[1] else []
+        if vres[0] != count or len(vs) != len(after):
+            c.fail("PSBTView.sign_with returns %r / writes %d scopes, PSBT.sign_with returns %r for %d inputs"
+                   % (vres[0], len(vs), count, len(after)), rec0)
+            return
+        for i, (x, y, z) in enumerate(zip(before, after, vs)):
+            bx, by = dict(x), dict(y)
+            if len(set(k for k, _ in z)) != len(z):
+                c.fail("PSBTView.sign_with wrote a key twice for input %d" % i, rec0)
+                return
+            for k, val in z:
+                if by.get(k) != val:
+                    c.fail("PSBTView.sign_with wrote a pair the in-memory variant does not produce (input %d key %s)"
+                           % (i, hx(k)[:40]), rec0)
+                    return
+            for k, val in y:
+                if bx.get(k) != val and (k, val) not in z:
+                    c.fail("PSBTView.sign_with did not write a signature the in-memory variant adds (input %d key %s)"
+                           % (i, hx(k)[:40]), rec0)
+                    return
+        # the property predicate on embit alone
+        if [scope_pairs_of(o, p.version) for o in p.outputs] != out_before or \
+                (p.version, p.tx_version, p.locktime, dict(p.unknown), len(p.inputs)) != glob_before:
+            c.fail("signing changed globals or outputs", rec0)
+            return
+        changed = 0
+        txtoks = gw.tx_tokens_of(g)
+        for i, (x, y) in enumerate(zip(before, after)):
+            d = g["ins"][i]
+            bx, by = dict(x), dict(y)
+            for k, v in x:
+                if k[:1] not in (b"\x02", b"\x14", b"\x08") and by.get(k) != v:
+                    c.fail("signing altered a field that is not a signature (key %s)" % hx(k)[:20], dict(rec0, input=i))
+                    return
+                if k not in by:
+                    c.fail("signing removed an entry (key %s)" % hx(k)[:20], dict(rec0, input=i))
+                    return
+            for k, v in y:
+                if bx.get(k) == v:
+                    continue
+                changed += 1
+                if k[:1] not in (b"\x02", b"\x14", b"\x08"):
+                    c.fail("signing added a field that is not a signature (key %s)" % hx(k)[:20], dict(rec0, input=i))
+                    return
+                taproot = d["algo"] == "taproot"
+                flag = flag_of(d["algo"], k, v)
+                if flag is None or flag != policy(authorised, d["sighash_type"], taproot):
+                    c.fail("new signature does not carry the authorised flag", dict(rec0, input=i, key=hx(k)[:70], value=hx(v)[:150]))
+                    continue
+                if taproot:
+                    if k == b"\x08":
+                        line = sigcheck_line(g, txtoks, i, None, flag, d["spk"][2:], v[2:66])
+                    else:
+                        leaf = d["leaf_scripts"].get(k[33:])
+                        if leaf is None:
+                            c.fail("taproot script signature filed under an unknown leaf", dict(rec0, input=i, key=hx(k)))
+                            continue
+                        line = sigcheck_line(g, txtoks, i, (leaf[0], leaf[1]), flag, k[1:33], v[:64])
+                else:
+                    line = sigcheck_line(g, txtoks, i, None, flag, k[1:], v[:-1])
+                c.expect(line, "valid", dict(rec0, input=i, key=hx(k)[:70], flag=flag, kind=d["kind"]), proven=True, op="sigcheck")
+        c.tally("adv-sigs:%d" % min(changed, 4))
+        # the counter counts the slots a signature is filed under (once per call), also when the slot held the identical
+        # signature before: it equals the number of changed slots when the PSBT carried no signature, else it is >=
+        fresh = not any(k[:1] in (b"\x02", b"\x14", b"\x08") for x in before for k, _ in x)
+        if (fresh and count != changed) or count < changed:
+            c.fail("returned count %r, number of signatures added or changed %d (PSBT %s signatures before)"
+                   % (count, changed, "without" if fresh else "with"), rec0)
+
+
+def explore_adversarial(c, n):
+    for k in range(n):
+        adversarial_case(c, c.rng)
+        if k % 20 == 19:
+            c.flush()
+    c.flush()
+
+
 def explore(c, n):
     for k in range(n):
         g = gw.gen_signable(c.rng)
@@ -241,12 +677,21 @@ def run(tier, seed):
     c.rule = ("seeded PSBTs (v0/v2, 1-3 inputs) over HD wallets A (cosigners B, C): p2pkh, p2wpkh, p2sh-p2wpkh, p2wsh / p2sh-p2wsh / "
               "p2sh multisig, p2wsh miniscript, p2tr key path, p2tr script path (1-2 leaves); per-input sighash_type absent or any "
               "of the 8 flags; signer in {HD root of A, of cosigner B, of a foreign wallet, WIF key, descriptor with origin, "
-              "descriptor key}; authorised flag in {None, 0, 1, 2, 3, 0x81, 0x82, 0x83}; in memory or through PSBTView. Distinct by content.")
+              "descriptor key}; authorised flag in {None, 0, 1, 2, 3, 0x81, 0x82, 0x83}; in memory or through PSBTView. Distinct by content. "
+              "Adversarial variants (in memory AND through PSBTView, compared with each other and with the Lean models of both): existing "
+              "partial / taproot signatures and final witnesses, signing a result again, derivation entries with the other key parity, "
+              "duplicated as taproot + ordinary entry, wrong last index, foreign fingerprint, missing utxo; signers: uncompressed key, "
+              "descriptor holding one xprv under two branches, descriptor mixing xpub / xprv / WIF, descriptor key whose origin does not "
+              "match, descriptor key without origin, key wrapped with origin.")
     c.assumptions = ["unforgeability is not claimed: 'valid' means the independent Lean verifier accepts the signature for the consensus digest",
-                     "wallet keys and scripts are built with embit's key classes as test data; script codes and expected sets are built here"]
+                     "wallet keys and scripts are built with embit's key classes as test data; script codes and expected sets are built here",
+                     "sign.run / sign.view instantiate the proved model with the driver's executable secp256k1, RFC 6979 + grinding, BIP340, "
+                     "BIP32 and taproot-tweak models of C07/C09/C10 (each tied to embit by its own property's check)",
+                     "signers are private key objects of the modelled kinds (ec.PrivateKey, private bip32.HDKey, descriptor Key, Descriptor)"]
     c.build_and_audit()
     explore(c, 70 if tier == "quick" else 1200)
-    return c.finish(search=lambda cc: explore(cc, 80))
+    explore_adversarial(c, 150 if tier == "quick" else 2000)
+    return c.finish(search=lambda cc: (explore(cc, 80), explore_adversarial(cc, 150)))
 
 
 def replay(path):
